@@ -85,6 +85,8 @@ pub enum Clause {
     Tr { t: Ref, to: u8, expect: Option<u8> },
     /// SET RETENTION target {retention_class: "r<v>"} [EXPECT VERSION n]
     Sr { t: Ref, v: u32, expect: Option<u64> },
+    /// MERGE CONCEPT source INTO target [EXPECT VERSION n]
+    Mg { src: Ref, into: Ref, expect: Option<u64> },
 }
 
 /// lifecycle status codes shared with the model (`Model/Tx.lean`): 0 as created, 1 retracted, 2 empty
@@ -138,6 +140,7 @@ impl Clause {
             Clause::Co { t, by } => format!("co:{}:{}", t.tok(), by.tok()),
             Clause::Tr { t, to, expect } => format!("tr:{}:{to}:{}", t.tok(), opt(expect)),
             Clause::Sr { t, v, expect } => format!("sr:{}:{v}:{}", t.tok(), opt(expect)),
+            Clause::Mg { src, into, expect } => format!("mg:{}:{}:{}", src.tok(), into.tok(), opt(expect)),
         }
     }
     pub fn parse(tok: &str) -> Option<Clause> {
@@ -158,6 +161,7 @@ impl Clause {
             ["co", t, by] => Clause::Co { t: Ref::parse(t)?, by: Ref::parse(by)? },
             ["tr", t, to, ex] => Clause::Tr { t: Ref::parse(t)?, to: to.parse().ok()?, expect: popt(ex)? },
             ["sr", t, v, ex] => Clause::Sr { t: Ref::parse(t)?, v: v.parse().ok()?, expect: popt(ex)? },
+            ["mg", a, b, ex] => Clause::Mg { src: Ref::parse(a)?, into: Ref::parse(b)?, expect: popt(ex)? },
             ["rt", t, ex] => {
                 let expect: Option<u8> = popt(ex)?;
                 if expect.is_some_and(|v| v > 1) { return None; }
@@ -166,7 +170,7 @@ impl Clause {
             ["ss", t, to, ex] => {
                 let to = to.chars().next()?;
                 if !"rt".contains(to) { return None; }
-                let expect = if *ex == "-" { None } else { Some(ex.chars().next().filter(|c| "art".contains(*c))?) };
+                let expect = if *ex == "-" { None } else { Some(ex.chars().next().filter(|c| "artm".contains(*c))?) };
                 Clause::Ss { t: Ref::parse(t)?, to, expect }
             }
             _ => return None,
@@ -178,7 +182,7 @@ impl Clause {
             Clause::Cr { kind: 'A', .. } => "create_assertion", Clause::Cr { kind: 'E', .. } => "create_evidence",
             Clause::Cr { .. } => "create_activity", Clause::Ud { .. } => "update",
             Clause::Ss { to: 'r', .. } => "archive", Clause::Ss { .. } => "tombstone", Clause::Rt { .. } => "retract", Clause::Pg { .. } => "purge",
-            Clause::Su { .. } => "supersede", Clause::Co { .. } => "correct", Clause::Tr { .. } => "transition", Clause::Sr { .. } => "set_retention",
+            Clause::Su { .. } => "supersede", Clause::Co { .. } => "correct", Clause::Tr { .. } => "transition", Clause::Sr { .. } => "set_retention", Clause::Mg { .. } => "merge",
         }
     }
 }
@@ -313,6 +317,10 @@ pub fn render(st: &Stmt) -> (String, BTreeMap<String, String>) {
                 let e = expect.map(|v| format!(" EXPECT VERSION {v}")).unwrap_or_default();
                 format!("SET RETENTION {} {{retention_class: \"r{v}\"}}{e}", r(t, &mut params))
             }
+            Clause::Mg { src, into, expect } => {
+                let e = expect.map(|v| format!(" EXPECT VERSION {v}")).unwrap_or_default();
+                format!("MERGE CONCEPT {} INTO {}{e}", r(src, &mut params), r(into, &mut params))
+            }
         });
     }
     let text = if parts.len() == 1 && !st.dry { parts.remove(0) } else { format!("MUTATE {{\n  {}\n}}", parts.join("\n  ")) };
@@ -323,7 +331,7 @@ pub fn format_conf(pay: u32) -> String {
     format!("0.{:02}", pay.clamp(1, 99))
 }
 pub fn state_name(c: char) -> &'static str {
-    match c { 'a' => "active", 'r' => "archived", 't' => "tombstoned", _ => "pending" }
+    match c { 'a' => "active", 'r' => "archived", 't' => "tombstoned", 'm' => "merged", _ => "pending" }
 }
 
 // ------------------------------------------------------------------------------------------
@@ -341,6 +349,9 @@ pub struct Known {
     pub all: Vec<(String, u64, bool)>,
     /// the second Schema Environment (with the extra package: type `Gadget`, predicate `likes`) is in force
     pub env_b: bool,
+    /// merged-away Concepts: (alias id, the id its `merged_into` chain ends at). The type recorded for an
+    /// alias in `concepts` is the survivor's: ENSURE validates the canonicalised endpoint.
+    pub merged: Vec<(String, String)>,
 }
 
 /// the actions of one UPDATE: one family alone (often Facet-only: the decay sweep), or a mix
@@ -382,6 +393,43 @@ pub fn gen_stmt(r: &mut Rng, known: &Known) -> Stmt {
             }
             if c.is_empty() { None } else { Some(r.pick(&c).clone()) }
         };
+        // MERGE CONCEPT: mostly two existing unmerged Concepts; sometimes itself, a merged one (refused:
+        // already merged elsewhere / no-op: same target / cycle), a non-Concept, a handle of this block
+        if known.concepts.len() >= 2 && r.chance(1, 14) {
+            let cs: Vec<&(String, u32, u64, String, u32)> = known.concepts.iter().collect();
+            let a = *r.pick(&cs);
+            let b = if r.chance(1, 12) { a } else { *r.pick(&cs) };
+            let src = Ref::Id(a.0.clone());
+            let into = if r.chance(1, 15) && !known.props.is_empty() { Ref::Id(r.pick(&known.props).0.clone()) }
+                       else if r.chance(1, 10) { concept_ref(r, &hs, None).map(|x| x.0).unwrap_or_else(|| Ref::Id(b.0.clone())) }
+                       else { Ref::Id(b.0.clone()) };
+            let expect = if want_bad { Some(9) } else if r.chance(1, 5) { Some(a.2) } else { None };
+            clauses.push(Clause::Mg { src, into, expect });
+            continue;
+        }
+        // one tuple named twice in one statement through a survivor and its merged-away alias (both orders),
+        // in subject or object position; the tuple often does not exist yet
+        if !known.merged.is_empty() && r.chance(1, 5) {
+            let (alias, survivor) = r.pick(&known.merged).clone();
+            let sty = known.concepts.iter().find(|k| k.0 == survivor).map(|k| k.1).unwrap_or(0);
+            let other = concept_ref(r, &hs, None);
+            if let Some((other, _)) = other {
+                let in_subject = r.chance(1, 2);
+                let p = if in_subject && sty != 1 { 7 } else if r.chance(1, 2) { 5 } else { 7 };
+                let (first, second) = if r.chance(1, 2) { (alias.clone(), survivor.clone()) } else { (survivor.clone(), alias.clone()) };
+                let mk = |who: String, h: Option<u32>| -> Clause {
+                    let (s, o) = if in_subject { (Ref::Id(who), other.clone()) } else { (other.clone(), Ref::Id(who)) };
+                    // `prefers` needs a Person subject: the subject's (canonical) type decides
+                    let subj_ty = if in_subject { sty } else { match &other { Ref::Id(i) => known.concepts.iter().find(|k| &k.0 == i).map(|k| k.1).unwrap_or(0), Ref::H(h) => hs.iter().find(|x| x.0 == *h).map(|x| x.2).unwrap_or(0) } };
+                    Clause::En { h, s, p, o, expect: None, bad: p == 5 && subj_ty != 1 }
+                };
+                let h1 = if r.chance(1, 2) { let h = next_h; next_h += 1; hs.push((h, 'P', 0)); Some(h) } else { None };
+                let h2 = if r.chance(1, 2) { let h = next_h; next_h += 1; hs.push((h, 'P', 0)); Some(h) } else { None };
+                clauses.push(mk(first, h1));
+                clauses.push(mk(second, h2));
+                continue;
+            }
+        }
         // the record-lifecycle clauses (SUPERSEDE / CORRECT / TRANSITION / SET RETENTION): targets are
         // existing records or records this block creates; sometimes the wrong kind, itself, a stale guard
         if r.chance(1, 6) {
